@@ -826,7 +826,9 @@ class VarsCollector:
 				if decl_var.domain_name != add_var.domain_name:
 					continue
 
-				if add_var.scope.startswith(decl_var.scope):
+				add_module, add_elems = ModuleDSN.expanded(add_var.scope)
+				decl_module, decl_elems = ModuleDSN.expanded(decl_var.scope)
+				if add_module == decl_module and add_elems[:len(decl_elems)] == decl_elems:
 					relationed = True
 					break
 
